@@ -8,19 +8,26 @@ DIRS=${@:-seeded/*/}
 if ! git -C /repo diff --quiet; then echo "/repo has uncommitted changes"; exit 2; fi
 for d in $DIRS; do
   d=${d%/}
-  prop=$(python3 -c "import json;print(json.load(open('$d/meta.json'))['property'])")
+  prop=$(python3 -c "import json;m=json.load(open('$d/meta.json'));print(' '.join([m['property']]+m.get('also_check',[])))")
   git -C /repo apply /verif/$d/patch.diff || { echo "$d: patch does not apply"; continue; }
-  out=$(./check $prop --tier $TIER 2>&1); rc=$?
+  rc=0; out=""; by=""
+  for pr in $prop; do
+    o=$(./check $pr --tier $TIER 2>&1); r=$?
+    out="$out$o"
+    if [ $r -eq 1 ]; then by="$by $pr"; fi
+    if [ "$pr" = "${prop%% *}" ]; then rc=$r; fi
+  done
   git -C /repo checkout -- .
-  caught=$([ $rc -eq 1 ] && echo true || echo false)
-  echo "$d property=$prop tier=$TIER exit=$rc caught=$caught"
-  python3 - "$d" "$TIER" "$rc" "$caught" <<PY
+  caught=$([ -n "$by" ] && echo true || echo false)
+  echo "$d property=${prop%% *} tier=$TIER exit=$rc caught=$caught by=[$by ]"
+  python3 - "$d" "$TIER" "$rc" "$caught" "$by" <<PY
 import json,sys
 d,tier,rc,caught=sys.argv[1:5]
+by=sys.argv[5].split() if len(sys.argv)>5 else []
 p=f"{d}/detect.json"
 try: r=json.load(open(p))
 except Exception: r={}
-r[tier]={"exit":int(rc),"caught":caught=="true"}
+r[tier]={"exit":int(rc),"caught":caught=="true","caught_by":by}
 json.dump(r,open(p,"w"),indent=1)
 PY
   echo "$out" | grep -E "^VIOLATION" | head -2
